@@ -1,9 +1,18 @@
 from checks.storelib import *
 from checks import storelib
 PROP = "C03"
-READY = False
+READY = True
 RULE = ("histories of single/multi-event, multi-stream appends over 1-2 buckets with 128 KiB segments (big payloads force rollovers), reopen, "
         "then stream and partition scans from {0, mid, last, last+1, u64::MAX, random} x {forward, reverse} x batch {1,2,3,50}; "
         "non-trivial = at least two appends of which one succeeded; distinct = distinct history strings")
 monitor_e = storelib.monitor_kinds({"SS", "SP"}, "scan")
-LEVEL_TEXT = "pending"; LEVEL_NOTE = "pending"; TECHNIQUE = "Coq proof + history differential"
+LEVEL_TEXT = ("Machine-checked proof (Coq, ~3300 lines) about the faithful model of the scan iterators (BucketIter::new_inner / next_batch / rollover, SegmentIter::new / next, advance_offsets_index, "
+              "filter_commit): for every reachable store (any operation list: appends, syncs, rollovers at any point, reopen, crashes), every key, start position and batch size, the forward scan never errors "
+              "and returns exactly the stored events of the key at or after the position, once each, gapless and strictly increasing, grouped as the stored transactions (C03_reachable_forward_exact/groups/positions, "
+              "C03_forward_no_foreign, C03_forward_group_shape); the reverse scan returns one group per key event at or before the position, newest first, each a suffix of its transaction "
+              "(C03_reverse_groups/exact/group_shape/heads/all); results depend only on the visible abstract log, not on which segments are sealed or reopened (C03_independent_of_sealing, C03_same_after_rollover/reopen). "
+              "Tie to the code: scans from every kind of start position x both directions x batch sizes 1/2/3/50 on the real Database across rollovers and reopen, compared with the extracted model and the spec filter.")
+LEVEL_NOTE = ("Trusted: Coq kernel, extraction, OCaml driver, Rust harness. The block cache, reader thread pool, MPHF/bloom lookups of sealed indexes are not modelled: they are exercised by the runs (both the cache and the "
+              "pool read paths occur) but their equivalence to the modelled lookups is tested, not proved. Reverse scans assume positions <= u64::MAX (U64ok). The reverse-scan reading 'a group may repeat its own events' "
+              "admits later siblings of the transaction that contains the start position.")
+TECHNIQUE = "Coq proof (refinement of the iterator model to the spec filter, by induction over segments/offsets) + history differential against the real Database"
